@@ -356,8 +356,7 @@ func (n *nodeSim) checkSettled(where string) {
 						sig := "not-offered-to-new-peer/" + n.algo
 						if ps.appearedUnlisted >= ps.upEpoch {
 							sig = "not-offered-to-new-peer/peer-appeared-before-registration"
-						}
-						if tr.overlapRMW {
+						} else if tr.overlapRMW {
 							sig += "/overlapping-failure-reports"
 						}
 						n.res.Violate("C05", "I3-epidemic", sig, "%s is retained, p%d connected at epoch %d and does not have it, but no Send was invoked since (%s)",
